@@ -248,6 +248,15 @@ def run_lock(cls, n_seq, seed, work):
         return 'C++ build failed: ' + e[-800:], 0
     rc1, o1, e1 = sh(['timeout', '60', cfile + '.exe'])
     rc2, o2, e2 = sh(['timeout', '60', cppfile + '.exe'])
+    if rc1 == 124 and rc2 == 124:
+        # both the extracted code and the real library hang (a changed lock that never becomes free again): that is a
+        # property matter, not an extraction matter; what both printed before must still agree
+        l1, l2 = o1.split('\n')[:-1], o2.split('\n')[:-1]
+        n = min(len(l1), len(l2))
+        for i in range(n):
+            if l1[i] != l2[i]:
+                return 'trace differs at line %d: extracted "%s" vs real "%s"' % (i + 1, l1[i], l2[i]), i
+        return None, n
     if rc1 or rc2:
         return 'driver failed rc=%d/%d' % (rc1, rc2), 0
     l1, l2 = o1.split('\n'), o2.split('\n')
